@@ -466,7 +466,7 @@ func TestVerifC02(t *testing.T) {
 	r.SetRule("rounds of 1-30 series (10 metric kinds: plain/percentile/resolution 2-60/no-sample/fair-key; 0-4 int or string tags at random positions 0..46; 0-8 int/string top values) fed with 10-200 random events (counter, value array, histogram, unique, value+counter, merged ItemValue; host tag absent/int/string; 12 timestamp classes) through the real Shard entry points, flushed, sampled by the real sampleBucket under 36 budget settings and sent over the real encode/compress/decode path into a fresh aggregator item. One case = one row of a SourceBucket3 (metric id > 0). Non-trivial = the row carries a value, uniques, centroids, a string top, an explicit timestamp or SF != 1; distinct = distinct (key layout, SF, aggregate values) abstraction.")
 	r.Assume("the harness repeats the per-row call sequence of aggregator.handleSendSourceBucket (KeyFromStatshouseMultiItem, Skeys copy/mapping, host and top stag mapping, GetOrCreateMultiItem, MergeWithTLMultiItem) in package agent; the aggregator's mapping cache is simulated by a fixed table (strings prefixed m:)")
 	r.Assume("rows of built-in metrics (metric id < 0) produced by sampleBucket itself are judged with the same oracle but the aggregator's built-in-only key amendments (agent env/route/arch, heartbeat host) are not replayed")
-	rounds := r.N(800, 48000)
+	rounds := r.N(800, 40000)
 	workers := 8
 	if r.Thorough() {
 		workers = 16
